@@ -1256,6 +1256,9 @@ def rt_known_class(text, keep_math, enclose_urls):
     # K5 = several spans: at least three dollars that can open / close a span; a backslash-escaped dollar is no delimiter (neither
     # for the rule in latex_encoding.py nor for the decoder), so ONE span with \\$ inside is not of this class
     if keep_math and unescaped_dollars(text) >= 3:
+        # (a narrower class was tried - "some text between two spans needs conversion" - and given up: the ways in which
+        # several dollars derail the round trip ($$ display math, text after the last dollar, braces) are too many to
+        # enumerate safely; the class stays as wide as the finding is stated)
         return "K5"
     if enclose_urls:
         for rx in URL_RE:
